@@ -1550,7 +1550,19 @@ func (eng *Engine) argStaysStatic(cc *ssa.CallCommon, v ssa.Value, depth int) bo
 		return n != "__mod" && n != "__modall"
 	}
 	if sp := eng.specFor(callee); sp != nil && !sp.Inline {
-		return false
+		// called by contract: the pointer is passed by copy-in / copy-out (callByContract), which is exact as long as
+		// the callee does not keep the pointer - read off its body
+		if sp.Assume || len(callee.Blocks) == 0 {
+			return false
+		}
+		for i, a := range cc.Args {
+			if a == v {
+				if i >= len(callee.Params) || eng.valueEscapes(callee.Params[i], map[ssa.Value]bool{}, depth+1) {
+					return false
+				}
+			}
+		}
+		return true
 	}
 	if eng.isModelled(callee.String()) || eng.isPureExternal(callee.String()) || eng.isNoop(callee.String()) {
 		return false
